@@ -80,7 +80,8 @@ type explSim struct {
 	log    *simkit.Log
 	stats  *simkit.Stats
 	chain  [][]int // guardian-set history on chain: index -> key indices
-	faults int     // number of upcoming eth_calls that fail
+	faults int     // number of upcoming eth_calls that fail ...
+	skip   int     // ... after this many have succeeded first
 	calls  int
 	step   int
 	start  time.Time
@@ -122,7 +123,9 @@ func (s *explSim) RoundTrip(req *http.Request) (*http.Response, error) {
 	if rq.Method != "eth_call" || len(rq.Params) < 1 {
 		return rpcErr("method not supported by the simulated node: " + rq.Method), nil
 	}
-	if s.faults > 0 {
+	if s.faults > 0 && s.skip > 0 {
+		s.skip--
+	} else if s.faults > 0 {
 		s.faults--
 		s.stats.Fault("rpc-error")
 		return mk(500, map[string]string{"error": "injected"}), nil
@@ -291,7 +294,7 @@ func (explHarness) Gen(seed uint64, prop, tier string) *simkit.Program {
 	msg := int64(0)
 	n := 8 + r.Intn(30)
 	for i := 0; i < n; i++ {
-		switch r.Pick(10, 3, 3, 2, 2, 1) {
+		switch r.Pick(10, 3, 3, 2, 2, 1, 2) {
 		case 0:
 			msg++
 			id := msg
@@ -331,6 +334,18 @@ func (explHarness) Gen(seed uint64, prop, tier string) *simkit.Program {
 			add("fill", 0, 0, 0, 0, "")
 		case 5:
 			add("rpcfault", int64(r.Range(1, 3)), 0, 0, 0, "")
+		case 6:
+			// the explorer has to catch up over several new sets and one call in the middle fails
+			k := r.Range(2, 4)
+			for j := 0; j < k; j++ {
+				cur++
+				add("chainset", 0, 0, 0, 0, xs(r.Perm(nKeys)[:r.Range(1, 7)]))
+			}
+			add("rpcfault", 1, int64(r.Range(1, k)), 0, 0, "")
+			msg++
+			add("push", msg, int64(cur), 0, -1, "")
+			msg++
+			add("push", msg, int64(cur), 0, -1, "")
 		}
 	}
 	// finally: every set of the chain must be usable
@@ -491,6 +506,7 @@ func (h explHarness) Exec(p *simkit.Program) *simkit.Result {
 			case "rpcfault":
 				s.mu.Lock()
 				s.faults += int(st.A)
+				s.skip = int(st.B)
 				s.mu.Unlock()
 			}
 			s.log.Cut(fmt.Sprintf("%d %s", i, st))
